@@ -1,4 +1,5 @@
 """C19 — signature- and annotation-changing utilities keep the loop nest."""
+import common
 import rwsearch
 from props.C01 import TRUSTED
 
@@ -22,7 +23,7 @@ def run(ck):
                 erased["same"] += 1
             else:
                 erased["differ"] += 1
-                ck.violation("%s|term-changed|%s" % (op, site), dict(replay, result=str(q)),
+                ck.violation("%s|term-changed|%s" % (op, site), dict(replay, result=common.safe_str(q)),
                              "%s changed more than the annotation" % op)
 
     s.after_apply.append(erasure)
